@@ -7,7 +7,7 @@
     DoWhileIWithContext (+3)     operator_error_handling.go:291-344
     WhileIWithContext (+3)       operator_error_handling.go:383-435
     RepeatWith                   operator_utility.go:396-433
-    Concat = ConcatAll ∘ Just    operator_creation.go:571-573, operator_combining.go:889-928
+    Concat = ConcatAll ∘ Just    operator_creation.go:571-573, operator_combining.go:889-934 (with fix 808ed47)
 
   Input: a list of *attempt outcomes* — the n-th subscription of the (cold) source plays the n-th
   outcome: a short script of values ending in completion or error; past the end of the list every
@@ -271,7 +271,7 @@ def repeatWith (count : Nat) (sub : Ctx) (cut : Option Nat) (outs : List Outcome
 
 /-! ### OnErrorResumeNextWith (`operator_error_handling.go:55-106`) -/
 
-/-- `n` sources left (`finally[i:]`, the slice captured at application time: :61); `err`/`last` as in the code -/
+/-- `n` sources left (`sources[i:]`, built per application since fix fd0e106); `err`/`last` as in the code -/
 def resumeLoop (sub : Ctx) : Nat → List Outcome → Nat → Ctx → Option Nat → Result
   | 0, _, _, last, err =>
     .stop [match err with
@@ -289,21 +289,20 @@ def onErrorResumeNext (k : Nat) (sub : Ctx) (outs : List Outcome) : Result :=
   if k = 0 then .after ((outcomeAt outs 0).nexts sub ++ [(outcomeAt outs 0).terminal sub]) 1 (.stop [])
   else resumeLoop sub (k + 1) outs 0 Ctx.nil none
 
-/-! ### Concat (`operator_combining.go:889-928` over `Just(sources…)`, `operator_creation.go:28-38`) -/
+/-! ### Concat (`operator_combining.go:889-934` over `Just(sources…)`, `operator_creation.go:28-38`) -/
 
-/-- An inner error closes `subscriptions` and errors the destination (:903-906) but `Just` keeps
-    handing the remaining sources to the outer observer, which subscribes them as before (values are
-    then refused by the destination; a source running on another goroutine is unsubscribed at once
-    by `AddUnsubscribable` on the closed `subscriptions`, :912-913, so that it pushes nothing — `raw`
-    describes the synchronous case, the delivered trace is the same). -/
+/-- An inner error closes `subscriptions` and errors the destination; `Just` keeps handing the
+    remaining sources to the outer observer, which skips them because `subscriptions.IsClosed()`
+    (fix 808ed47; before it every remaining source was still subscribed). `Just`'s completion is
+    then refused by the destination. -/
 def concatLoop (sub : Ctx) : Nat → List Outcome → Nat → Result
-  | 0, _, _ => .stop [.complete sub]                                             -- `Just` completes: :920
+  | 0, _, _ => .stop [.complete sub]                                             -- `Just` completes
   | n + 1, outs, i =>
     let o := outcomeAt outs 0
-    let raw := match o.fin with
-      | .complete => o.nexts sub                                                  -- :907 (nothing on completion)
-      | .error e => o.nexts sub ++ [.error (o.finCtx sub) (.user e)]
-    .after raw (i + 1) (concatLoop sub n outs.tail (i + 1))
+    match o.fin with
+    | .complete => .after (o.nexts sub) (i + 1) (concatLoop sub n outs.tail (i + 1))   -- nothing on completion
+    | .error e =>                                                                 -- `subscriptions.Unsubscribe()`, error forwarded
+      .after (o.nexts sub ++ [.error (o.finCtx sub) (.user e)]) (i + 1) (.stop [.complete sub])
 
 def concat (n : Nat) (sub : Ctx) (outs : List Outcome) : Result := concatLoop sub n outs 0
 
